@@ -48,7 +48,7 @@ def cases(tier):
             dts = dts0 + (("float32",) if n <= 2 else ())
             for pi in range(len(D.presets_small(cmd, n))):
                 for dt in dts:
-                    for miss in (0, 1):
+                    for miss in (0, 1) + ((2,) if SIG.input_fuzz(cmd) == "fz" and dt == "float" else ()):
                         for size in (4, 6):
                             yield (cmd, n, pi, dt, miss, size, tier)
 
@@ -190,6 +190,11 @@ def _cells(cmd, dt, n, size, miss):
     else:
         base = NF4 if size == 4 else NF6
     cols = [list(base[i]) for i in range(n)]
+    if miss == 2:
+        # a cell that is fully false (-1) in EVERY input, next to cells that are not (fuzzy commands only): where it lands in a grid is the test
+        for c in cols:
+            c[2] = F(-1)
+        return cols
     if miss:
         cols[0][1] = None
         if n > 1:
